@@ -101,7 +101,13 @@ def findRootClasses(
                     roots[base.fullName()] = base
         else:
             # This is a common root class. 
-            roots[cls.fullName()] = cls
+            subclasses_by_name = roots.get(cls.fullName())
+            if isinstance(subclasses_by_name, list):
+                # Classes that name this class as a base that could not be resolved are already
+                # listed under its name: do not drop them.
+                subclasses_by_name.append(cls)
+            else:
+                roots[cls.fullName()] = cls
     return sorted(roots.items(), key=lambda x:x[0].lower())
 
 def isPrivate(obj: model.Documentable) -> bool:
